@@ -328,8 +328,8 @@ def stage2(mut: dict, props: list[str]) -> dict:
 
 def main() -> int:
     parser = argparse.ArgumentParser()
-    parser.add_argument("mode", choices=["gen", "run"])
-    parser.add_argument("files", nargs="+")
+    parser.add_argument("mode", choices=["gen", "run", "retest"])
+    parser.add_argument("files", nargs="*")
     parser.add_argument("--out")
     parser.add_argument("--jobs", type=int, default=14)
     parser.add_argument("--props")
@@ -342,6 +342,20 @@ def main() -> int:
             if os.environ.get("MUT_SHOW"):
                 for m in ms:
                     print("  ", m["line"], m["desc"], "|", m["src_line"])
+        return 0
+    if args.mode == "retest":
+        # re-run the mapped checks on every mutant recorded as survived / check-exit in --out (files: optional filter)
+        out_path = Path(args.out)
+        rows = [json.loads(line) for line in out_path.read_text().splitlines()]
+        for m in rows:
+            if m["verdict"] == "survived" or m["verdict"].startswith("check-exit"):
+                if args.files and m["file"] not in args.files:
+                    continue
+                props = args.props.split(",") if args.props else FILE_PROPS[m["file"]][: args.max_checks]
+                before = m["verdict"]
+                stage2(m, props)
+                print(f"   {m['file']}:{m['line']} {m['desc']} {before} -> {m['verdict']}   | {m['src_line'][:90]}", flush=True)
+                out_path.write_text("".join(json.dumps(r) + "\n" for r in rows))
         return 0
     base = stage1({"file": args.files[0], "start": 0, "end": 0, "new": ""})
     if base["tests"] != "pass":
